@@ -61,7 +61,7 @@ var ntRoots = []string{"signumFloat", "signumInt", "signumUint64", "compareInt",
 	"NumericMatchFloat", "NumericMatchInt", "NumericMatchUint64", "NumericMatchChar", "NumericDo", "UintegerDo", "IntegerDo"}
 
 // roots that Props/C07.lean and Driver/Num.lean refer to by name: they must exist.
-var ntRequired = []string{"Compare", "NumericDo", "IntegerDo", "compareBool"}
+var ntRequired = []string{"Compare", "NumericDo", "IntegerDo"}
 
 // operand kinds: constructor of GoSem.Sx, Go struct, type of its Val field
 var ntKinds = []struct {
@@ -1756,6 +1756,11 @@ func runNumTrans(w *World) (out string, err error) {
 			b.WriteString(LeanList("problems", "String", []string{LeanString(fmt.Sprint("translator panic: ", r))}, 100))
 			b.WriteString("def goSigs : List (String × String × Bool) := []\ndef skippedArms : List String := []\n")
 			b.WriteString("end ZygoVerif.NumGo\n")
+			var unf []string
+			for _, n := range names {
+				unf = append(unf, "ZygoVerif.NumGo."+n)
+			}
+			fmt.Fprintf(&b, "macro \"numgo_unfold\" : tactic => `(tactic| (try simp only [%s]; try numgogood_unfold))\n", strings.Join(unf, ", "))
 			out, err = b.String(), nil
 			w.Facts["numgo"] = map[string]interface{}{"panic": fmt.Sprint(r)}
 		}
@@ -1865,7 +1870,21 @@ func runNumTrans(w *World) (out string, err error) {
 	b.WriteString(LeanList("skippedArms", "String", sk, 100))
 	b.WriteString("\n/-- what the translator could neither translate nor fall back on. Props/C07 requires `[]`. -/\n")
 	b.WriteString(LeanList("problems", "String", pr, 100))
-	b.WriteString("\nend ZygoVerif.NumGo\n")
+	// a tactic that unfolds every definition of this file (and then of the last-good copy, for
+	// aliases), so that proof scripts in Props/C07.lean do not name helper functions
+	var unf []string
+	for _, f := range t.order {
+		unf = append(unf, "ZygoVerif.NumGo."+f.name)
+	}
+	for _, rq := range ntRequired {
+		if !emitted[rq] {
+			if _, ok := good.sig[rq]; ok {
+				unf = append(unf, "ZygoVerif.NumGo."+rq)
+			}
+		}
+	}
+	b.WriteString("\nend ZygoVerif.NumGo\n\n/-- unfolds every translated definition (helpers included, whatever they are called today). -/\n")
+	fmt.Fprintf(&b, "macro \"numgo_unfold\" : tactic => `(tactic| (try simp only [%s, ZygoVerif.GoSem.bind_ok, ZygoVerif.GoSem.bind_err, ZygoVerif.GoSem.bind_panic, ZygoVerif.GoSem.bind_ok_right, ZygoVerif.GoSem.bind_ite]; try numgogood_unfold))\n", strings.Join(unf, ", "))
 	var rf []map[string]string
 	for _, f := range t.order {
 		if f.state == 3 {
